@@ -550,6 +550,75 @@ def Status.expected (s : Status) (isUp : Bool) : Bool := s.known && s.last != so
 /-- excluded condition 1 (finding KF-C11-3): `HostUp` for a host that is not known (never added, or removed) -/
 def Status.ghost (s : Status) : Bool := !s.known && s.last == some .hup
 
+/-! ### host identity in the lists (seventh round)
+
+The lists identify a host object by what `cowHostList.add` and `cowHostList.remove` COMPARE: `add` refuses a host
+that is `HostInfo.Equal` to an entry (same object, or same connect address), `remove(ip)` drops the entries whose
+connect address is `ip`. The round-robin based policies keep one list per tier, so the identity of a host object
+there is its KEY = (tier, connect address); two objects with one key (two nodes behind one address on different
+ports, two `HostInfo` objects for one node) are ONE host to the policy: the first one `AddHost` / `HostUp` put
+into the list stands for the key (`ownerOf`) until `RemoveHost` / `HostDown` of ANY object with that key frees it.
+`keyStatus` is the property's "known / last call" per key (calls about any object with the key). -/
+
+/-- the identity the lists of policy `p` give a host object: the list it belongs to and its connect address -/
+def Pol.key (p : Pol) (h : Host) : Nat × Nat := (p.tier h, h.addr)
+
+/-- status of the KEY `k` after the calls `evs` (oldest first): calls about any host object with that key -/
+def keyStatus (key : Host → Nat × Nat) (evs : List (Ev × Host)) (k : Nat × Nat) : Status :=
+  evs.foldl (fun s e => if key e.2 = k then s.step e.1 else s) Status.init
+
+/-- one call about an object `h` with the key: `AddHost` / `HostUp` put `h` there if the key is free,
+`RemoveHost` / `HostDown` free the key -/
+def ownerStep (o : Option Host) (e : Ev) (h : Host) : Option Host :=
+  match e with
+  | .add | .hup => (match o with | none => some h | some x => some x)
+  | .remove | .hdown => none
+
+/-- the object that stands for key `k` after the calls `evs` (oldest first), by the history alone -/
+def ownerOf (key : Host → Nat × Nat) (evs : List (Ev × Host)) (k : Nat × Nat) : Option Host :=
+  evs.foldl (fun o e => if key e.2 = k then ownerStep o e.1 e.2 else o) none
+
+/-- SPECIFICATION with shared keys: this object must be offered (exactly once) - it stands for its key, the key is
+known, was not reported down last, and the object's state is up -/
+def expectedObj (key : Host → Nat × Nat) (evs : List (Ev × Host)) (up : Nat → Bool) (h : Host) : Bool :=
+  ownerOf key evs (key h) == some h && (keyStatus key evs (key h)).expected (up h.id)
+
+/-! #### `cowHostList` as the Go code has it, nil entries included - for ANY pair of identities
+
+`sameAdd` is what `add` compares (`host.Equal(l[i])`), `keyOf x == ip` what `remove` compares
+(`l[i].ConnectAddress().Equal(ip)`). `remove` copies the entries that do not match into a slice of capacity
+`size` and then RE-SLICES it to `size-1` (`newL[: size-1 : size-1]`): with `m` matching entries the result is the
+`size-m` others followed by `m-1` nil pointers. An entry `none` is a nil `*HostInfo`; `add` / `remove` dereference
+every entry they look at (`Equal(nil)` / `nil.ConnectAddress()` panic): result `none` = the call panics. -/
+
+/-- `cowHostList.add(host)`: the scan stops at the first entry `host` is `Equal` to; a nil entry reached before
+that is a panic -/
+def rawAddScan {α : Type} (sameAdd : α → α → Bool) (h : α) : List (Option α) → Option Bool
+  | [] => some false
+  | none :: _ => none
+  | some x :: r => if sameAdd h x then some true else rawAddScan sameAdd h r
+
+def rawAdd {α : Type} (sameAdd : α → α → Bool) (l : List (Option α)) (h : α) : Option (List (Option α) × Bool) :=
+  match rawAddScan sameAdd h l with
+  | none => none
+  | some true => some (l, false)
+  | some false => some (l ++ [some h], true)
+
+/-- the entries `remove(ip)` copies: those whose key is not `ip` -/
+def keepEntry {α κ : Type} [BEq κ] (keyOf : α → κ) (ip : κ) : Option α → Bool
+  | some x => !(keyOf x == ip)
+  | none => true
+
+/-- `cowHostList.remove(ip)` -/
+def rawRemove {α κ : Type} [BEq κ] (keyOf : α → κ) (l : List (Option α)) (ip : κ) : Option (List (Option α) × Bool) :=
+  if l.any (·.isNone) then none else
+  if (l.filter (keepEntry keyOf ip)).length == l.length then some (l, false)
+  else some (l.filter (keepEntry keyOf ip) ++ List.replicate (l.length - 1 - (l.filter (keepEntry keyOf ip)).length) none, true)
+
+/-- the seeded variant C11-9 (regression, `Proofs/C11.lean`): a node is (address, port); `Equal` compares both,
+`remove` still compares the address -/
+def seededSame (a b : Nat × Nat) : Bool := a.1 == b.1 && a.2 == b.2
+
 /-! ### `cowHostList.add` / `remove` run by several threads (atomic steps as the code has them)
 
 Every call is `mu.Lock(); l := list.Load(); newL := f(l); list.Store(newL); mu.Unlock()` (add: `f = cowAdd · h`,
